@@ -137,6 +137,11 @@ def seed_leaves(pv: "Provenance", callers, fn: FuncInfo, e: ast.AST, depth: int 
                 good.append(norm(n))
                 return
             if "seed" in n.attr.lower():
+                cfg = pv.idx.find_class("piquasso.api.config", "Config")
+                meth = cfg.methods.get(n.attr) if cfg is not None else None
+                if meth is not None and any(isinstance(x, ast.Attribute) and x.attr in ("seed_sequence", "_seed_sequence") for x in ast.walk(meth.node)):
+                    good.append(norm(n))  # a Config property computed from the live seed slot
+                    return
                 bad.append(norm(n))
                 return
             visit(n.value)
